@@ -55,19 +55,28 @@ DocPool == <<
           M(98, MkObj(<<M(97, JArr(<<MkObj(<<M(98, JInt(1)), M(97, MkObj(<<M(98, JInt(2))>>))>>)>>)), M(98, JArr(<<JArr(<<JInt(1), MkObj(<<M(97, JInt(2))>>)>>), JArr(<<JInt(3)>>)>>))>>))>>),
   JArr(<<MkObj(<<M(97, JArr(<<JArr(<<MkObj(<<M(97, JTrue), M(98, JArr(<<JInt(1), JInt(2)>>))>>), JInt(7)>>), JArr(<<>>)>>)), M(98, JArr(<<JTrue, JNull>>))>>),
          JArr(<<MkObj(<<M(97, JInt(1)), M(98, MkObj(<<M(97, JArr(<<JInt(1), JInt(2)>>))>>))>>), MkObj(<<M(98, JTrue)>>)>>),
-         MkObj(<<M(98, MkObj(<<M(97, MkObj(<<M(98, JArr(<<MkObj(<<M(97, JInt(1))>>)>>))>>)), M(98, JInt(0))>>))>>)>>) >>
+         MkObj(<<M(98, MkObj(<<M(97, MkObj(<<M(98, JArr(<<MkObj(<<M(97, JInt(1))>>)>>))>>)), M(98, JInt(0))>>))>>)>>),
+  \* 15: the first element that satisfies a predicate lacks the field asked for next; null elements; a false-like member first
+  MkObj(<<M(97, JArr(<<MkObj(<<M(98, JTrue)>>), MkObj(<<M(97, JInt(0)), M(98, JFalse)>>), MkObj(<<M(97, MkObj(<<M(97, JInt(1)), M(98, JArr(<<JInt(2)>>))>>)), M(98, JInt(1))>>),
+                      JNull, MkObj(<<M(97, JArr(<<JInt(7), JNull, JInt(8)>>)), M(98, JArr(<<JInt(1)>>))>>)>>)),
+          M(98, JArr(<<JNull, MkObj(<<M(97, JNull), M(98, JInt(3))>>), MkObj(<<M(97, JInt(4))>>)>>))>>) >>
 
 (* operator chains: a primary followed by up to N postfix operators, every sequence of them, optionally under "!" *)
 Postfix == {<<"Dot", "Ident">>, <<"Lbracket", "Num", "Rbracket">>, <<"Lbracket", "Star", "Rbracket">>, <<"Flatten">>,
             <<"Filter", "Ident", "Rbracket">>, <<"Lbracket", "Num", "Colon", "Rbracket">>, <<"Dot", "Star">>,
-            <<"Dot", "Lbrace", "Ident", "Colon", "Ident", "Rbrace">>}
+            <<"Dot", "Lbrace", "Ident", "Colon", "Ident", "Rbrace">>,
+            \* a pipe as one more link (the projection ends there), a hash with two keys, a predicate that holds a projection
+            <<"Pipe", "Lbracket", "Num", "Rbracket">>, <<"Pipe", "At">>, <<"Pipe", "Ident">>,
+            <<"Dot", "Lbrace", "QIdent", "Colon", "Ident", "Comma", "Ident", "Colon", "Ident", "Rbrace">>,
+            <<"Filter", "Ident", "Lbracket", "Star", "Rbracket", "Rbracket">>, <<"Filter", "Not", "Ident", "Rbracket">>,
+            <<"Or", "Ident">>, <<"And", "Ident">>, <<"Cmp", "Ident">>}
 RECURSIVE ChainsOf(_)
 ChainsOf(n) == IF n = 0 THEN {<<>>} ELSE LET c == ChainsOf(n - 1) IN c \cup {x \o p : x \in {y \in c : TRUE}, p \in Postfix}
 ChainKinds(zzdummy) == LET cs == ChainsOf(N) \ {<<>>}
               IN {<<"Ident">> \o c : c \in cs} \cup {<<"At">> \o c : c \in cs} \cup {<<"Not", "Ident">> \o c : c \in cs}
 ChainCases(zzdummy) ==
   LET all == SetToSeq(ChainKinds(0))
-      pairs == SetToSeq({<<i, d>> : i \in DOMAIN all, d \in {2, 13, 14}})
+      pairs == SetToSeq({<<i, d>> : i \in DOMAIN all, d \in {2, 13, 14, 15}})
   IN [x \in DOMAIN pairs |-> [e |-> "eval", text |-> Spell(Toks(all[pairs[x][1]], 0), "tight", 0), d |-> pairs[x][2]]]
 
 NoAmp(s) == \A i \in DOMAIN s : s[i] # "Amp"
